@@ -36,12 +36,12 @@ func genMixedPair() (*spec.Schema, interface{}) {
 			}
 		}
 		return &s, obj
-	case 9: // thorough: tuple of three with schema-valued additionalItems and uniqueItems
-		s.Items = &spec.SchemaOrArray{Schemas: []spec.Schema{genLeafSmall(), strSchema("", 1), genLeafSmall()}}
-		l := genLeafSmall()
+	case 9: // thorough: tuple of two with schema-valued additionalItems and uniqueItems, arrays of up to 4
+		s.Items = &spec.SchemaOrArray{Schemas: []spec.Schema{genLeafSmall(), strSchema("", 1)}}
+		l := schemaOfType("number")
 		s.AdditionalItems = &spec.SchemaOrBool{Allows: true, Schema: &l}
 		s.UniqueItems = verifBool()
-		n := verifChoose(6)
+		n := verifChoose(5)
 		arr := make([]interface{}, 0, n)
 		for i := 0; i < n; i++ {
 			arr = append(arr, genObjValue())
